@@ -389,6 +389,9 @@ func (r *Report) ApplyFindings(fs []Finding) (known []Obligation) {
 // Funcs returns the names of the functions the rules analysed.
 func (r *Report) Funcs() map[string]bool { return r.funcs }
 
+// AnchoredFuncs is the scope of the generated tables (anchors and their bounded callee closure).
+func (r *Report) AnchoredFuncs() map[string]bool { return r.anchored }
+
 // Bad lists obligations that fail the check.
 func (r *Report) Bad() []Obligation {
 	var out []Obligation
